@@ -160,9 +160,18 @@ func (g *jsonGen) number() {
 
 var collideMid = []string{"", "x", "y", "xy", "yx"}
 
+// names (and strings) that are distinct byte strings but equal once ill-formed
+// UTF-8 has been replaced by U+FFFD
+var mangleTwins = []string{"k\xef\xbf\xbd", "k\xef", "k\xef\xbf", "k\xff", "k\\ufffd", "k\xc0", "\xef\xbf\xbd", "\xef", "\xe2\x80"}
+
 func (g *jsonGen) str(name bool) {
 	s := g.s
 	g.b = append(g.b, '"')
+	if g.cfg.CollideNames && g.cfg.InvalidUTF8 && s.Chance(1, 3) {
+		g.b = append(g.b, mangleTwins[s.Draw(len(mangleTwins))]...)
+		g.b = append(g.b, '"')
+		return
+	}
 	if g.cfg.CollideNames && s.Chance(1, 2) {
 		// same length class, same first and last 8 bytes, different middle
 		g.b = append(g.b, "prefix__"...)
